@@ -71,15 +71,15 @@ def shapes(quick=True):
     # geometric stop, counter
     out.append(({"types": [], "init": [asg("x", c(0)), asg("y", c(0))], "guard": eq("x", 0),
                  "body": [bern("x", F(1, 2)), asg("y", ("add", v("y"), c(1)))]},
-                [("E", {"y": 1}), ("E", {"y": 2}), ("k", 2, {"y": 1}), ("E", {"x": 1})] + more(("c", 2, {"y": 1})), "geometric+counter"))
+                [("E", {"y": 1}), ("k", 2, {"y": 1}), ("E", {"x": 1})] + more(("E", {"y": 2}), ("c", 2, {"y": 1})), "geometric+counter"))
     # the collapse witness of DESIGN section 6 (#10)
     out.append(({"types": [], "init": [asg("x", c(0)), bern("c", F(1, 2))], "guard": eq("x", 0),
                  "body": [("if", [(eq("c", 1), [bern("x", F(1, 2))])], None)]},
-                [("E", {"x": 1}), ("E", {"c": 1})], "collapse-witness"))
+                [("E", {"x": 1})] + more(("E", {"c": 1})), "collapse-witness"))
     # its non-collapsed twin: terminates with probability 1/2
     out.append(({"types": [], "init": [asg("x", c(0)), asg("y", c(0)), bern("c", F(1, 2))], "guard": eq("x", 0),
                  "body": [asg("y", ("add", v("y"), c(1))), ("if", [(eq("c", 1), [bern("x", F(1, 2))])], None)]},
-                [("E", {"x": 1}), ("E", {"y": 1}), ("E", {"c": 1})] + more(("c", 2, {"y": 1})), "terminates-with-prob-1/2"))
+                [("E", {"y": 1}), ("E", {"c": 1})] + more(("E", {"x": 1}), ("c", 2, {"y": 1})), "terminates-with-prob-1/2"))
     # collapse with a second shape: nested single ifs
     out.append(({"types": [], "init": [asg("x", c(0)), bern("c", F(1, 3)), bern("d", F(1, 2))], "guard": eq("x", 0),
                  "body": [("if", [(eq("c", 1), [("if", [(eq("d", 1), [bern("x", F(1, 2))])], None)])], None)]},
@@ -88,30 +88,31 @@ def shapes(quick=True):
     out.append(({"types": [], "init": [asg("x", c(0)), asg("z", c(0)), asg("y", c(0))],
                  "guard": ("not", ("and", eq("x", 1), eq("z", 1))),
                  "body": [bern("x", F(1, 2)), bern("z", F(1, 3)), asg("y", ("add", v("y"), v("x")))]},
-                [("E", {"y": 1}), ("E", {"x": 1, "z": 1})] + more(("k", 2, {"y": 1})), "two-variable-guard"))
+                [("E", {"y": 1})] + more(("E", {"x": 1, "z": 1}), ("k", 2, {"y": 1})), "two-variable-guard"))
     out.append(({"types": [], "init": [asg("x", c(0)), bern("z", F(1, 2)), asg("y", c(1))],
                  "guard": ("and", eq("x", 0), eq("z", 1)),
                  "body": [bern("x", F(1, 4)), asg("y", ("add", v("y"), c(2)))]},
-                [("E", {"y": 1}), ("E", {"y": 1, "z": 1})] + more(("c", 2, {"y": 1})), "two-variable-guard+stopped-at-0"))
-    # guard with an inequality over a three-valued variable, two-stage chain (n*r^n terms)
-    out.append(({"types": [], "init": [asg("s", c(0)), asg("y", c(0))], "guard": ("atom", v("s"), "<", c(2)),
+                [("E", {"y": 1, "z": 1})] + more(("E", {"y": 1}), ("c", 2, {"y": 1})), "two-variable-guard+stopped-at-0"))
+    # guard with an inequality over a three-valued variable, two-stage chain (n*r^n terms); thorough tier only: the
+    # indicator polynomial is not power-reduced, Polar solves 16 systems, their validation takes minutes
+    (out if not quick else []).append(({"types": [], "init": [asg("s", c(0)), asg("y", c(0))], "guard": ("atom", v("s"), "<", c(2)),
                  "body": [asg("y", ("add", v("y"), v("s"))),
                           ("if", [(eq("s", 0), [choice("s", [(F(1, 2), c(1)), (F(1, 2), c(0))])])],
                            [choice("s", [(F(1, 2), c(2)), (F(1, 2), c(1))])])]},
-                [("E", {"s": 1})] if quick else [("E", {"y": 1}), ("E", {"s": 1}), ("E", {"y": 2})], "inequality-guard+two-stage"))
+                [("E", {"y": 1}), ("E", {"s": 1}), ("E", {"y": 2})], "inequality-guard+two-stage"))
     # the same two-stage chain with two flags (n*r^n terms, two-valued types only)
     out.append(({"types": [], "init": [asg("a", c(0)), asg("b", c(0)), asg("y", c(0))], "guard": eq("b", 0),
                  "body": [asg("y", ("add", v("y"), c(1))),
                           ("if", [(eq("a", 0), [bern("a", F(1, 2))])], [bern("b", F(1, 2))])]},
-                [("E", {"y": 1}), ("E", {"a": 1, "y": 1})] + more(("c", 2, {"y": 1})), "two-stage-flags"))
+                [("E", {"y": 1})] + more(("E", {"a": 1, "y": 1}), ("c", 2, {"y": 1})), "two-stage-flags"))
     # already stopped at the start with probability 1/2
     out.append(({"types": [], "init": [bern("x", F(1, 2)), asg("y", c(0))], "guard": eq("x", 0),
                  "body": [bern("x", F(1, 3)), asg("y", ("add", v("y"), c(2)))]},
-                [("E", {"y": 1}), ("c", 2, {"y": 1}), ("E", {"x": 1, "y": 1})], "stopped-at-0-with-prob-1/2"))
+                [("E", {"y": 1}), ("c", 2, {"y": 1})] + more(("E", {"x": 1, "y": 1})), "stopped-at-0-with-prob-1/2"))
     # exit value depends on the exit state (non-constant exit expectation)
     out.append(({"types": [], "init": [asg("s", c(0)), asg("y", c(0))], "guard": eq("s", 0),
                  "body": [choice("s", [(F(1, 2), c(0)), (F(1, 6), c(1)), (F(1, 3), c(2))]), asg("y", ("add", v("y"), v("s")))]},
-                [("E", {"s": 1}), ("E", {"s": 2}), ("E", {"y": 1})] + more(("c", 2, {"s": 1})), "exit-state-dependent"))
+                [("E", {"s": 1}), ("E", {"s": 2})] + more(("E", {"y": 1}), ("c", 2, {"s": 1})), "exit-state-dependent"))
     # divergent exit expectations
     out.append(({"types": [], "init": [asg("x", c(0)), asg("y", c(1))], "guard": eq("x", 0),
                  "body": [asg("y", ("mul", c(2), v("y"))), bern("x", F(1, 2))]},
@@ -125,7 +126,7 @@ def shapes(quick=True):
     # never terminates once started / guard false from the start
     out.append(({"types": [], "init": [bern("x", F(1, 3)), asg("y", c(0))], "guard": eq("x", 0),
                  "body": [asg("y", ("add", v("y"), c(1)))]},
-                [("E", {"y": 1}), ("E", {"x": 1})], "guard-variable-never-changes"))
+                [("E", {"y": 1})] + more(("E", {"x": 1})), "guard-variable-never-changes"))
     return out
 
 
@@ -602,11 +603,12 @@ def run(ctx):
     n_shapes = len(base)
     base += gen_programs(ctx, max(0, n_prog - len(base)))
     # one Polar task per (program, goal): Polar's own limit_seq dominates the cost, goals run in parallel
-    progs, is_shape = [], []
+    progs, is_shape, unit_pi = [], [], []
     for pi, (p, goals, tag) in enumerate(base):
         for g in goals:
             progs.append((p, [g], tag))
             is_shape.append(pi < n_shapes)
+            unit_pi.append(pi)
     tasks = [{"kind": "afterloop", "text": P.prog_text(p), "goals": [goal_text(g) for g in goals], "nvals": N + 2,
               "timeout": ctx.pick(170, 400)} for p, goals, _ in progs]
     import time as _time
@@ -650,10 +652,13 @@ def run(ctx):
     lthread = threading.Thread(target=_limits)
     lthread.start()
     # ---- exact oracle + guard agreement ------------------------------------------------------
-    ofiles, ometa = [], {}
+    ofiles, ometa_p = [], {}
+    by_prog = {}
     for i in live:
-        p, goals, tag = progs[i]
-        r = results[i]
+        by_prog.setdefault(unit_pi[i], []).append(i)
+    for pi, idxs in by_prog.items():        # one oracle run per program (all goals of the program)
+        p, goals, tag = base[pi]
+        r = results[idxs[0]]
         ms = needed_monos(goals)
         Gs_ast, envs = None, None
         if r.get("original_loop_guard") is not None and "unsupported" not in r.get("flat", {}):
@@ -661,27 +666,29 @@ def run(ctx):
             if not any(x.startswith("_") for x in cond_dump_vars(Gs)):
                 Gs_ast = core.cond_to_ast(Gs)
                 envs = typed_envs(r, [Gs, r["source_guard"]])
-        ometa[i] = {"ms": ms, "Gs": Gs_ast, "envs": envs is not None}
-        ofiles.append((f"exit_{i}", oracle_case_file(p, ms, NF, N, Gs_ast, envs)))
+        ometa_p[pi] = {"ms": ms, "Gs": Gs_ast, "envs": envs is not None}
+        ofiles.append((f"exit_{pi}", oracle_case_file(p, ms, NF, N, Gs_ast, envs)))
     _t = _time.time()
     oouts = lib.coq_run_many(ctx, ofiles, timeout=400)
     phases["oracle_s"] = round(_time.time() - _t, 1)
-    exact = {}
-    for i in live:
-        okc, o = oouts[f"exit_{i}"]
+    exact_p = {}
+    for pi in by_prog:
+        okc, o = oouts[f"exit_{pi}"]
         rs = oracle.parse_results(o) if okc else []
-        ms = ometa[i]["ms"]
+        ms = ometa_p[pi]["ms"]
         if len(rs) < 2 or len(rs[0]) != NF + 1 or any(len(row) != len(ms) + 1 for row in rs[0]):
             errs["oracle-failed"] = errs.get("oracle-failed", 0) + 1
             continue
         if rs[0][:len(rs[1])] != rs[1]:
-            raise RuntimeError("oracle self-check failed: compacted and plain semantics disagree on\n" + P.prog_text(progs[i][0]))
+            raise RuntimeError("oracle self-check failed: compacted and plain semantics disagree on\n" + P.prog_text(base[pi][0]))
         bl = None
         for val, ty in parse_evals(o):
             if ty == "list bool":
                 bl = [x.strip() == "true" for x in val.strip("[] \n").split(";")]
-        exact[i] = {"rows": rs[0], "event": rs[2] if len(rs) > 2 else None,
-                    "src_agree": bl[0] if bl else None, "model_agree": bl[1] if bl else None}
+        exact_p[pi] = {"rows": rs[0], "event": rs[2] if len(rs) > 2 else None,
+                       "src_agree": bl[0] if bl else None, "model_agree": bl[1] if bl else None}
+    exact = {i: exact_p[unit_pi[i]] for i in live if unit_pi[i] in exact_p}
+    ometa = {i: ometa_p[unit_pi[i]] for i in live}
     # ---- validators (all n) on Polar's closed forms ------------------------------------------
     vfiles, vmeta = [], {}
     for i in live:
